@@ -39,7 +39,7 @@ func NewPoolSystem(a Adapter, nsubs int, ops []string) *PoolSystem {
 	// requests for a specific prefix also name the prefix just past the pool's end and one further out
 	outside := []int{a.Geo.NUnits(), a.Geo.NUnits() + 2}
 	for sub := 1; sub <= nsubs; sub++ {
-		for _, o := range []string{"alloc", "release", "renew", "allocf"} {
+		for _, o := range []string{"alloc", "release", "renew", "allocf", "allocm", "allocmf"} {
 			if has(o) {
 				s.events = append(s.events, core.Event{"op": o, "sub": sub, "arg": -1})
 			}
@@ -113,6 +113,12 @@ func (p *poolInst) Apply(ev core.Event) map[string]any {
 		return res(err == nil, u, err, false)
 	case "allocf":
 		u, err := im.allocF(id)
+		return res(err == nil, u, err, true)
+	case "allocm":
+		u, err := im.allocM(id)
+		return res(err == nil, u, err, false)
+	case "allocmf":
+		u, err := im.allocMF(id)
 		return res(err == nil, u, err, true)
 	case "release":
 		err := im.release(id)
